@@ -1,34 +1,92 @@
-import TinsModel.Wire.Iface
+import TinsModel.Wire.App.Arp
+import TinsModel.Wire.App.Vxlan
+import TinsModel.Wire.App.Stp
+import TinsModel.Wire.App.Rtp
+import TinsModel.Wire.App.BootP
+import TinsModel.Wire.App.Dhcp
+import TinsModel.Wire.App.Dhcpv6
 /-
-  Family interface of `App` (stub: no class of this family is modelled yet).
-  A family module exports, in namespace `Tins.Wire.App`:
-    Obj, classes, parse, info, hdr, trl, write, mk, apply   (see TinsModel/Wire/Iface.lean)
+  Family interface of `App`: BootP, DHCP, DHCPv6, RTP, VXLAN, ARP, STP (DNS belongs to C10).
+  Exports, in namespace `Tins.Wire.App`: Obj, classes, parse, info, hdr, trl, write, mk, apply.
 -/
 namespace Tins.Wire.App
 
 inductive Obj
-  | unit
+  | arp (a : Arp)
+  | vxlan (v : Vxlan)
+  | stp (s : Stp)
+  | rtp (r : Rtp)
+  | bootp (p : BootP)
+  | dhcp (d : Dhcp)
+  | dhcpv6 (d : Dhcpv6)
 deriving Repr
 
 /-- C++ class names whose parsing constructor this family models -/
-def classes : List String := []
+def classes : List String := ["ARP", "VXLAN", "STP", "RTP", "BootP", "DHCP", "DHCPv6"]
 
-/-- the parsing constructor `cls(buffer, total_sz)` (or `from_bytes`) -/
-def parse (_cls : String) (_b : Bytes) : Out (Obj × Inner) := .throw .stdOther
+/-- the parsing constructor `cls(buffer, total_sz)` -/
+def parse (cls : String) (b : Bytes) : Out (Obj × Inner) :=
+  if cls == "ARP" then (Arp.parse b) >>= fun (o, i) => pure (.arp o, i)
+  else if cls == "VXLAN" then (Vxlan.parse b) >>= fun (o, i) => pure (.vxlan o, i)
+  else if cls == "STP" then (Stp.parse b) >>= fun (o, i) => pure (.stp o, i)
+  else if cls == "RTP" then (Rtp.parse b) >>= fun (o, i) => pure (.rtp o, i)
+  else if cls == "BootP" then (BootP.parse b) >>= fun (o, i) => pure (.bootp o, i)
+  else if cls == "DHCP" then (Dhcp.parse b) >>= fun (o, i) => pure (.dhcp o, i)
+  else if cls == "DHCPv6" then (Dhcpv6.parse b) >>= fun (o, i) => pure (.dhcpv6 o, i)
+  else .throw .stdOther
 
 /-- (actual class name, getter dump) -/
-def info (_o : Obj) : String × Fields := ("", [])
+def info : Obj → String × Fields
+  | .arp o => ("ARP", o.fields)
+  | .vxlan o => ("VXLAN", o.fields)
+  | .stp o => ("STP", o.fields)
+  | .rtp o => ("RTP", o.fields)
+  | .bootp o => ("BootP", o.fields)
+  | .dhcp o => ("DHCP", o.fields)
+  | .dhcpv6 o => ("DHCPv6", o.fields)
 
-def hdr (_o : Obj) : Nat := 0
-def trl (_o : Obj) (_innerSize : Nat) : Nat := 0
+def hdr : Obj → Nat
+  | .arp _ => Arp.hdrSize
+  | .vxlan _ => Vxlan.hdrSize
+  | .stp _ => Stp.hdrSize
+  | .rtp o => o.hdr
+  | .bootp o => o.hdr
+  | .dhcp o => o.hdr
+  | .dhcpv6 o => o.hdr
+
+def trl : Obj → Nat → Nat
+  | .rtp o, _ => o.trl
+  | _, _ => 0
 
 /-- `write_serialization(buffer, total_sz)` on the layer's region -/
-def write (_cx : Ctx) (_o : Obj) (region : Bytes) : Out Bytes := .ok region
+def write (cx : Ctx) : Obj → Bytes → Out Bytes
+  | .arp o, r => o.write cx r
+  | .vxlan o, r => o.write cx r
+  | .stp o, r => o.write cx r
+  | .rtp o, r => o.write cx r
+  | .bootp o, r => o.write cx r
+  | .dhcp o, r => o.write cx r
+  | .dhcpv6 o, r => o.write cx r
 
-/-- public (non-parsing) constructors: `new <cls> args…` -/
-def mk (_cls : String) (_args : List String) : Out Obj := .throw .stdOther
+/-- public (non-parsing) constructors: `push <cls> args…` -/
+def mk (cls : String) (args : List String) : Out Obj :=
+  if cls == "ARP" then (Arp.make args) >>= fun o => pure (.arp o)
+  else if cls == "VXLAN" then (Vxlan.make args) >>= fun o => pure (.vxlan o)
+  else if cls == "STP" then (Stp.make args) >>= fun o => pure (.stp o)
+  else if cls == "RTP" then (Rtp.make args) >>= fun o => pure (.rtp o)
+  else if cls == "BootP" then (BootP.make args) >>= fun o => pure (.bootp o)
+  else if cls == "DHCP" then (Dhcp.make args) >>= fun o => pure (.dhcp o)
+  else if cls == "DHCPv6" then (Dhcpv6.make args) >>= fun o => pure (.dhcpv6 o)
+  else .throw .stdOther
 
 /-- one API call on the object: setters, add/remove option … -/
-def apply (_o : Obj) (_op : List String) : Out Obj := .throw .stdOther
+def apply : Obj → List String → Out Obj
+  | .arp o, op => (o.apply op) >>= fun x => pure (.arp x)
+  | .vxlan o, op => (o.apply op) >>= fun x => pure (.vxlan x)
+  | .stp o, op => (o.apply op) >>= fun x => pure (.stp x)
+  | .rtp o, op => (o.apply op) >>= fun x => pure (.rtp x)
+  | .bootp o, op => (o.apply op) >>= fun x => pure (.bootp x)
+  | .dhcp o, op => (o.apply op) >>= fun x => pure (.dhcp x)
+  | .dhcpv6 o, op => (o.apply op) >>= fun x => pure (.dhcpv6 x)
 
 end Tins.Wire.App
